@@ -177,4 +177,184 @@ theorem C11_sha_applied (count : Nat) (rb : Bytes) (n osize : Nat) (S : Bytes) (
       (by decide) (by decide) (by decide) (by decide) (by decide) h (fun _ => [])
     exact ⟨P, hP, hr⟩
 
+
+/-! ### applied cost for bsdicrypt, bcrypt and sha1crypt -/
+
+/-- the iteration count `gensalt_bsdicrypt_rn` encodes: default 725, at most 2^24 - 1, made odd -/
+def bsdiCount (count : Nat) : Nat :=
+  let c := if count = 0 then 725 else count
+  let c := if c > 0xffffff then 0xffffff else c
+  if c % 2 = 0 then c + 1 else c
+
+/-- bsdicrypt, end to end: hashing with a generated setting runs the DES core with exactly the encoded count (and the generated salt) -/
+theorem C11_bsdi_applied (count : Nat) (rb : Bytes) (n osize : Nat) (S : Bytes) (e : Nat) (h : gensaltBsdi count rb n osize = .ok S e)
+    (D : Digests) (p : Bytes) : cryptBsdi D p S = .ok (S ++ desEncode (D.bsdi p (le24 rb 0) (bsdiCount count))) := by
+  unfold gensaltBsdi at h
+  split at h; · cases h
+  split at h; · cases h
+  simp only [WOut.ok.injEq] at h
+  obtain ⟨rfl, _⟩ := h
+  have hcc : (if (if (if count = 0 then 725 else count) > 16777215 then 16777215 else if count = 0 then 725 else count) % 2 = 0 then
+      (if (if count = 0 then 725 else count) > 16777215 then 16777215 else if count = 0 then 725 else count) + 1
+      else if (if count = 0 then 725 else count) > 16777215 then 16777215 else if count = 0 then 725 else count) = bsdiCount count := rfl
+  rw [hcc]
+  have hcl : bsdiCount count < 2 ^ 24 := by unfold bsdiCount; dsimp only; split <;> split <;> (try split) <;> omega
+  generalize bsdiCount count = c at *
+  have hsl : le24 rb 0 < 2 ^ 24 := by
+    unfold le24 rbAt
+    have a := (rb.getD 0 0).toNat_lt; have b := (rb.getD (0 + 1) 0).toNat_lt; have c := (rb.getD (0 + 2) 0).toNat_lt
+    omega
+  have d1 := dec24_enc24 c hcl [95] (enc24 (le24 rb 0))
+  have d5 := dec24_enc24 (le24 rb 0) hsl ([95] ++ enc24 c) []
+  simp only [List.length_cons, List.length_nil, List.append_nil, List.length_append, enc24] at d1 d5
+  unfold cryptBsdi
+  simp only [enc24] at d1 d5 ⊢
+  have hc0 : cat ([95] ++ [a64 c, a64 (c / 64), a64 (c / 4096), a64 (c / 262144)] ++ [a64 (le24 rb 0), a64 (le24 rb 0 / 64), a64 (le24 rb 0 / 4096), a64 (le24 rb 0 / 262144)]) 0 = 95 := rfl
+  simp only [hc0, ne_eq, not_true_eq_false, List.length_append, List.length_cons, List.length_nil, false_or, if_false, d1, d5]
+  simp
+
+/-- bcrypt, end to end: hashing with a generated setting runs eksblowfish with exactly the requested cost (2^count iterations; 5 when
+    `count` is 0) - read back from the two cost digits by the method's own parser -/
+theorem C11_bcrypt_applied (sub : UInt8) (count : Nat) (rb : Bytes) (n osize : Nat) (S : Bytes) (e : Nat) (h : gensaltBf sub count rb n osize = .ok S e)
+    (D : Digests) (hst : ∀ f, D.bfSelfTest f = true) (p : Bytes) :
+    ∃ salt, cryptBf D p S = .ok (S ++ bfEncode (D.bf (Gen.flags_by_subtype.getD (sub.toNat - 97) 0).toNat (dfl count 5) salt p)) := by
+  unfold gensaltBf at h
+  simp only [] at h
+  split at h; · cases h
+  rename_i hc
+  split at h; · cases h
+  simp only [WOut.ok.injEq] at h
+  obtain ⟨hS, _⟩ := h
+  simp only [not_or, Nat.not_lt, not_and, Decidable.not_not] at hc
+  obtain ⟨_, hc4, hc31, hsub⟩ := hc
+  generalize dfl count 5 = c at *
+  have hcd := bf_cost_digits ⟨c, by omega⟩ (by simpa using hc4)
+  simp only [] at hcd
+  obtain ⟨hd, hcost, hpow⟩ := hcd
+  -- the 22 salt characters
+  have hel := bfEncode_length16 (padTo rb 16) (padTo_length rb 16)
+  have hch := bfEncode_chars (padTo rb 16)
+  obtain ⟨v21, hv21, hlast⟩ := bfEncode_last16 (padTo rb 16) (padTo_length rb 16)
+  generalize bfEncode (padTo rb 16) = enc at *
+  have hS' : S = [36, 50, sub, 36, (48 + c / 10).toUInt8, (48 + c % 10).toUInt8, 36] ++ enc := hS.symm
+  have hlen : S.length = 29 := by rw [hS']; simp [hel]
+  have hcat : ∀ i, i < 22 → cat S (7 + i) = cat enc i := by
+    intro i hi; rw [hS']; simp only [cat, List.getD_eq_getElem?_getD]
+    rw [List.getElem?_append_right (by simp)]; simp
+  have hvalid : ∀ i, i < 22 → ∃ v, bfAtoi (cat enc i) = some v := by
+    intro i hi
+    have hm : cat enc i ∈ enc := by
+      unfold cat; rw [List.getD_eq_getElem?_getD, List.getElem?_eq_getElem (by omega)]; simp
+    obtain ⟨v, hv⟩ := hch _ hm
+    exact ⟨v % 64, by rw [hv, bfAtoi_bf64']⟩
+  obtain ⟨salt, hsalt⟩ := bfDecode16_some (S.drop 7) (by intro i hi; rw [cat_drop, hcat i hi]; exact hvalid i hi)
+  -- the parse
+  have hflags : (Gen.flags_by_subtype.getD (sub.toNat - 97) 0).toNat ≠ 0 := by
+    rcases Classical.em (sub = 97) with h | h
+    · subst h; decide
+    · rcases Classical.em (sub = 98) with h2 | h2
+      · subst h2; decide
+      · have := hsub h h2; subst this; decide
+  have hrange : ¬ (sub < 97 ∨ sub > 122) := by
+    rcases Classical.em (sub = 97) with h | h
+    · subst h; decide
+    · rcases Classical.em (sub = 98) with h2 | h2
+      · subst h2; decide
+      · have := hsub h h2; subst this; decide
+  have hparse : parseBf S = some { flags := (Gen.flags_by_subtype.getD (sub.toNat - 97) 0).toNat, cost := c, salt := salt } := by
+    unfold parseBf
+    have c0 : cat S 0 = 36 := by rw [hS']; rfl
+    have c1 : cat S 1 = 50 := by rw [hS']; rfl
+    have c2 : cat S 2 = sub := by rw [hS']; rfl
+    have c3 : cat S 3 = 36 := by rw [hS']; rfl
+    have c4 : cat S 4 = (48 + c / 10).toUInt8 := by rw [hS']; rfl
+    have c5 : cat S 5 = (48 + c % 10).toUInt8 := by rw [hS']; rfl
+    have c6 : cat S 6 = 36 := by rw [hS']; rfl
+    simp only [c0, c1, c2, c3, c4, c5, c6, hsalt]
+    have g1 : ¬ ((36 : UInt8) ≠ 36 ∨ (50 : UInt8) ≠ 50 ∨ sub < 97 ∨ sub > 122) := by
+      intro h; rcases h with h | h | h
+      · exact h rfl
+      · exact h rfl
+      · exact hrange h
+    have g2 : ¬ ((Gen.flags_by_subtype.getD (sub.toNat - 97) 0).toNat = 0 ∨ (36 : UInt8) ≠ 36 ∨ (48 + c / 10).toUInt8 < 48 ∨
+            (48 + c / 10).toUInt8 > 51 ∨ (48 + c % 10).toUInt8 < 48 ∨ (48 + c % 10).toUInt8 > 57 ∨
+            (48 + c / 10).toUInt8 = 51 ∧ (48 + c % 10).toUInt8 > 49 ∨ (36 : UInt8) ≠ 36) := by
+      intro h; rcases h with h | h | h | h | h | h | h | h
+      · exact hflags h
+      · exact h rfl
+      · exact hd (Or.inl h)
+      · exact hd (Or.inr (Or.inl h))
+      · exact hd (Or.inr (Or.inr (Or.inl h)))
+      · exact hd (Or.inr (Or.inr (Or.inr (Or.inl h))))
+      · exact hd (Or.inr (Or.inr (Or.inr (Or.inr h))))
+      · exact h rfl
+    rw [if_neg g1, if_neg g2, hcost, if_neg hpow]
+  -- the 29th character is kept as it is: its four unused bits are already zero
+  have h28 : cat S 28 = bf64 (v21 * 16) := by
+    have := hcat 21 (by omega); rw [show 7 + 21 = 28 from rfl] at this; rw [this, hlast]
+  refine ⟨salt, ?_⟩
+  unfold cryptBf
+  rw [hparse]
+  simp only [hst, not_true_eq_false, if_false]
+  have hB : Gen.BF_SETTING_LENGTH - 1 = 28 := by decide
+  rw [hB, h28, bfAtoi_bf64']
+  have e16 : v21 * 16 % 64 / 16 * 16 = v21 * 16 := by omega
+  simp only [Option.getD_some, e16]
+  rw [← h28]
+  have := take_succ_getD S 28 hlen
+  unfold cat
+  rw [this]
+
+
+
+/-- sha1crypt, end to end: hashing with a generated setting runs PBKDF1-HMAC-SHA1 with exactly the printed iteration count
+    (`sha1Rounds`: the clamped `count` minus a random part below a quarter of it - `C11_sha1_window`) -/
+theorem C11_sha1_applied (count : Nat) (rb : Bytes) (n osize : Nat) (S : Bytes) (e : Nat) (h : gensaltSha1 count rb n osize = .ok S e)
+    (D : Digests) (p : Bytes) : ∃ salt, cryptSha1 D p S = .ok (S ++ sha1Encode (D.sha1crypt p salt (sha1Rounds count rb))) := by
+  unfold gensaltSha1 at h
+  have hsl : Gen.CRYPT_SHA1_SALT_LENGTH = 64 := by decide
+  generalize Gen.CRYPT_SHA1_SALT_LENGTH = F at h hsl
+  have hr := sha1Rounds_lt count rb
+  generalize sha1Rounds count rb = r at *
+  have hdl : (toDec r).length ≤ 10 := toDec_length_le10 r (by omega)
+  have hdp := toDec_length_pos r
+  have hn0l : ([36, 115, 104, 97, 49, 36] ++ toDec r ++ [36] : Bytes).length = 7 + (toDec r).length := by
+    simp only [List.length_append, List.length_cons, List.length_nil]; omega
+  split at h; · cases h
+  rename_i hn
+  split at h; · cases h
+  rename_i hos
+  simp only [hn0l] at h
+  generalize hL : (toDec r).length = L at *
+  split at h; · cases h
+  rename_i hn0
+  simp only [WOut.ok.injEq] at h
+  obtain ⟨hS, _⟩ := h
+  simp only [Nat.not_lt] at hn hos
+  -- the effective output limit
+  generalize holim : (if 7 + L + F + 2 > osize then osize - 2 else 7 + L + F) = olim at hS
+  have holb : 7 + L + 4 < olim ∧ olim ≤ 7 + L + 64 := by rw [← holim, hsl]; split <;> omega
+  generalize hsalt : sha1SaltLoop rb n olim (F + 1) 4 (7 + L) = salt at hS
+  obtain ⟨sp1, sp2⟩ := sha1SaltLoop_spec rb n olim (F + 1) 4 (7 + L)
+  have spos := sha1SaltLoop_nonempty rb n olim F 4 (7 + L) ⟨by omega, holb.1⟩
+  rw [hsalt] at sp1 sp2 spos
+  have hslen : salt.length ≤ 64 := by rw [Nat.max_def] at sp2; split at sp2 <;> omega
+  have hm : ([36, 115, 104, 97, 49, 36] : Bytes) = sha1Magic := rfl
+  subst hS
+  refine ⟨salt, ?_⟩
+  have hgoal : ([36, 115, 104, 97, 49, 36] : Bytes) ++ toDec r ++ [36] ++ salt ++ [36] ++ sha1Encode (D.sha1crypt p salt r) = sha1Magic ++ toDec r ++ [36] ++ salt ++ [36] ++ sha1Encode (D.sha1crypt p salt r) := by rw [hm]
+  rw [hgoal]
+  have e1 : ([36, 115, 104, 97, 49, 36] : Bytes) ++ toDec r ++ [36] ++ salt ++ [36] = sha1Magic ++ (toDec r ++ 36 :: (salt ++ 36 :: [])) := by
+    rw [hm]; simp only [List.append_assoc, List.singleton_append, List.cons_append, List.nil_append]
+  have hfit : ¬ (sha1Magic.length + (toDec r).length + 1 + salt.length + 1 + Gen.SHA1_OUTPUT_SIZE + 1 > Gen.CRYPT_OUTPUT_SIZE) := by
+    have : sha1Magic.length = 6 := rfl
+    have : Gen.SHA1_OUTPUT_SIZE = 28 := by decide
+    have : Gen.CRYPT_OUTPUT_SIZE = 384 := by decide
+    omega
+  have hp := parseSha1_canon r salt [] (by unfold ULONG_MAX; omega) sp1 (by omega) hfit
+  rw [e1]
+  exact cryptSha1_of_parse D p _ _ hp
+
+
+
 end Xc.C11
